@@ -126,7 +126,9 @@ def storm_case(case):
             if not F.is_post(kind):
                 continue
             rr = case['lens'][(len(rules)) % len(case['lens'])]
-            rules.append(F.rule(kind, nth, {'action': 'acme_error', 'type': 'badNonce', 'status': 400}, attempt=att, tx_from=0, tx_to=rr))
+            # badNonce mostly, but every recoverable error leads to a retransmission that must carry a fresh nonce too
+            et = case['types'][len(rules) % len(case['types'])]
+            rules.append(F.rule(kind, nth, {'action': 'acme_error', 'type': et, 'status': 400 if et != 'serverInternal' else 500}, attempt=att, tx_from=0, tx_to=rr))
     plan = {'default': {'lifetimes_s': [100, LONG], 'chain_lens': [1], 'nonce_on_get': case['nonce_on_get']}, 'faults': rules}
 
     def cfg(d, ca):
@@ -217,7 +219,8 @@ def run(tier):
         life.append({'i': i, 'k0': k0, 'k1': k1, 'eab': EAB_ALGS[i % 3] if i % 2 else None, 'eab_len': r.choice([16, 32, 64, 100]),
                      'nonce_on_get': bool(i % 3)})
     storms = [{'i': i, 'k0': kts[(i + 2) % 7] if (kts[(i + 2) % 7] != 'rsa4096' or i % 3 == 0) else 'ecdsa_p521', 'n_ids': r.choice([1, 2, 3]),
-               'lens': [r.randint(1, 9) for _ in range(12)], 'nonce_on_get': bool(i % 2)} for i in range(12 if tier == 'quick' else 120)]
+               'lens': [r.randint(1, 9) for _ in range(12)], 'nonce_on_get': bool(i % 2),
+               'types': (['badNonce'] if i % 3 == 0 else [r.choice(sorted(C.RECOVERABLE)) for _ in range(7)])} for i in range(12 if tier == 'quick' else 120)]
     shared = [{'i': i, 'n': r.choice([2, 3]), 'k0': r.choice(['ecdsa_p256', 'ed25519', 'rsa2048', 'ecdsa_p521']), 'nonce_on_get': bool(i % 2),
                'workers': r.choice([None, 1, 4])} for i in range(6 if tier == 'quick' else 60)]
     jobs = [('life', c) for c in life] + [('storm', c) for c in storms] + [('shared', c) for c in shared]
@@ -241,7 +244,7 @@ def run(tier):
         if res['posts']:
             chk.distinct.add((part, c.get('k0'), c.get('k1'), c.get('eab'), c.get('nonce_on_get'), c.get('n_ids'), c.get('n')))
         if not res['problems'] and res['posts']:
-            chk.sample({'flow': part, **{k: v for k, v in c.items() if k not in ('lens',)}, 'posts': res['posts']})
+            chk.sample({'flow': part, **{k: v for k, v in c.items() if k not in ('lens', 'types')}, 'posts': res['posts']})
         seen = set()
         for cls, what in res['problems']:
             if cls in seen:
